@@ -92,7 +92,7 @@ def main(argv):
             return bool(d.get("impl_vs_spec", True))
         if name == "k2":
             return bool(d.get("impl_deeper"))
-        if name in ("cc:k6a", "cc:k6d", "cc:k4acc", "cc:k6build", "cc:k9impl", "k10:build", "k11:build", "k3:native", "tb:run", "tb:opt", "tb:accept", "k8:c13", "k8:c15", "k8:c16"):
+        if name in ("cc:k6a", "cc:k6d", "cc:k4acc", "cc:k6build", "cc:k9impl", "k10:build", "k11:build", "k11:run", "k3:native", "tb:run", "tb:opt", "tb:accept", "k8:c13", "k8:c15", "k8:c16"):
             return True
         if name == "cc:k6e":
             return "Buildable=True" in d.get("model", "") or "Buildable=true" in d.get("model", "")
